@@ -502,6 +502,19 @@ func (ex *Exec) reportViolation(label, kind string, pos token.Pos, vals map[int]
 	}
 	ex.seenViol[key] = true
 	v := &Violation{Label: label, Kind: kind, Pos: p, Inputs: ex.inputVals(vals)}
+	for _, id := range ex.st.knownIDs {
+		// a listed known finding: only the labels it names (all, if it names none)
+		anyLabel := false
+		for k := range ex.Cfg.Known {
+			if strings.HasPrefix(k, "label:"+id+":") {
+				anyLabel = true
+			}
+		}
+		if !anyLabel || ex.Cfg.Known["label:"+id+":"+label] != "" {
+			v.Known = id
+			ex.KnownHit[id] = true
+		}
+	}
 	ex.Violations = append(ex.Violations, v)
 	if ex.Cfg.Verbose > 0 {
 		fmt.Fprintf(os.Stderr, "VIOLATION candidate %s (%s) at %s\n", label, kind, p)
